@@ -55,3 +55,91 @@ func init() {
 		Stubs:  append(append([]string{}, stubCrypto...), stubErrors...),
 	})
 }
+
+// dataShapes enumerates (nFOpts, fpMode, nFRM) triples for data frames.
+func dataShapes(tier string, maxTotal int) [][]int {
+	var out [][]int
+	fo := pick(tier, []int{0, 1, 15}, rng(0, 15))
+	fr := pick(tier, []int{0, 1, 15, 16, 17, 33, 222}, []int{0, 1, 2, 15, 16, 17, 31, 32, 33, 64, 128, 222, 230, 242})
+	for _, nfo := range fo {
+		for mode := 0; mode <= 2; mode++ {
+			for _, nfr := range fr {
+				if mode == 0 && nfr != 0 {
+					continue
+				}
+				if mode == 1 && nfo != 0 {
+					continue
+				}
+				if 1+7+nfo+1+nfr > maxTotal {
+					continue
+				}
+				out = append(out, []int{nfo, mode, nfr})
+			}
+		}
+	}
+	return out
+}
+
+func init() {
+	register(&PropSpec{
+		ID:   "C02",
+		Pkgs: []string{"root"},
+		Items: func(tier string, seed int64) []Item {
+			var it []Item
+			for ver := 0; ver <= 1; ver++ {
+				for _, s := range dataShapes(tier, 255) {
+					it = append(it, Item{PkgKey: "root", Func: "VerifC02_Uplink", Shape: append([]int{ver}, s...)})
+					it = append(it, Item{PkgKey: "root", Func: "VerifC02_Downlink", Shape: append([]int{ver}, s...)})
+				}
+			}
+			return it
+		},
+		Bounds: func(tier string) map[string]string { return map[string]string{} },
+		Stubs:  append(append([]string{}, stubCrypto...), stubErrors...),
+	})
+}
+
+func init() {
+	p := props["C03"]
+	old := p.Items
+	p.Items = func(tier string, seed int64) []Item {
+		it := old(tier, seed)
+		for _, n := range rng(0, 17) {
+			it = append(it, Item{PkgKey: "root", Func: "VerifC03_FOptsFunc", Shape: []int{n}})
+		}
+		for mt := 0; mt < 4; mt++ {
+			for mode := 0; mode <= 2; mode++ {
+				for _, n := range pick(tier, []int{0, 1, 16, 17, 33}, []int{0, 1, 2, 15, 16, 17, 31, 32, 33, 64, 242}) {
+					if mode == 0 && n != 0 {
+						continue
+					}
+					it = append(it, Item{PkgKey: "root", Func: "VerifC03_PHYFRM", Shape: []int{mt, mode, n}})
+				}
+				for _, n := range pick(tier, []int{0, 1, 15, 16, 17}, rng(0, 17)) {
+					if mode == 1 && n != 0 {
+						continue
+					}
+					it = append(it, Item{PkgKey: "root", Func: "VerifC03_PHYFOpts", Shape: []int{mt, mode, n}})
+				}
+			}
+		}
+		return it
+	}
+	register(&PropSpec{
+		ID:   "C04",
+		Pkgs: []string{"root"},
+		Items: func(tier string, seed int64) []Item {
+			var it []Item
+			for k := 0; k < 3; k++ {
+				it = append(it, Item{PkgKey: "root", Func: "VerifC04_UpJoinMIC", Shape: []int{k}})
+			}
+			for cf := 0; cf <= 8; cf++ {
+				it = append(it, Item{PkgKey: "root", Func: "VerifC04_DownJoinMIC", Shape: []int{cf}})
+				it = append(it, Item{PkgKey: "root", Func: "VerifC04_JoinAcceptCrypt", Shape: []int{cf}})
+			}
+			return it
+		},
+		Bounds: func(tier string) map[string]string { return map[string]string{} },
+		Stubs:  append(append([]string{}, stubCrypto...), stubErrors...),
+	})
+}
